@@ -118,8 +118,13 @@ class AsyncConnDriver(Driver):
             except Exception:      # noqa
                 pass
         self.obs.execute("delete from t")
-        self.conn = _C(self._run(self.engine.connect()), self.sa)
         self.handles = []
+        self.broken = None
+        try:
+            self.conn = _C(self._run(self.engine.connect()), self.sa)
+        except Exception as e:      # noqa  - a tree on which AsyncEngine.connect() fails: every walk reports it as a divergence
+            self.conn = None
+            self.broken = "await engine.connect() raised %r" % (e,)
 
     def _call(self, fn):
         from sqlalchemy.ext.asyncio import AsyncTransaction
@@ -140,6 +145,8 @@ class AsyncConnDriver(Driver):
         return ret, res
 
     def step(self, frm, act, to):
+        if self.broken:
+            return self.broken
         m = Driver.step(self, frm, act, to)
         if m:
             return m
